@@ -5,7 +5,7 @@
 //!
 //! Scenario (JSON): {"name":..,"workers":1..2,"shutdown_s":1..2,"conns":N,"stop":"graceful"|"forced",
 //!   "release":[{"c":0,"at":"before_stop"|"never"|<ms after stop>}], "second_stop":bool, "drop_future":bool,
-//!   "pause_first":bool, "late_connect":bool, "stop_gap_ms":N, "busy_ms":N}
+//!   "pause_first":bool, "late_connect":bool, "race_conns":N, "stop_after_done":bool, "stop_gap_ms":N, "busy_ms":N}
 //! accept_delay_ms (solo scenarios only): while set, the accept thread is held that long whenever it logs "resume accepting
 //!   connections" (tracing subscriber); resume_then_stop: resume() and stop() are issued back to back
 //! busy_ms: every connection handler blocks its worker thread for N ms right after it started (no yield)
@@ -138,7 +138,7 @@ pub fn run_scenario(sc: &Value) -> Vec<Value> {
     let workers = sc["workers"].as_u64().unwrap_or(1) as usize;
     let shutdown_s = sc["shutdown_s"].as_u64().unwrap_or(1);
     let graceful = sc["stop"].as_str().unwrap_or("graceful") == "graceful";
-    let release: Vec<Arc<AtomicBool>> = (0..nconn.max(1) + 4).map(|_| Arc::new(AtomicBool::new(false))).collect();
+    let release: Vec<Arc<AtomicBool>> = (0..nconn.max(1) + 4 + sc["race_conns"].as_u64().unwrap_or(0) as usize).map(|_| Arc::new(AtomicBool::new(false))).collect();
 
     // the server runs in its own actix System thread
     let (tx, rx) = mpsc::channel();
@@ -229,6 +229,18 @@ pub fn run_scenario(sc: &Value) -> Vec<Value> {
         let _ = handle.resume();
         log.emit(json!({"e": "ResumeCalled"}));
     }
+    // "race_conns": N more clients connect right before the stop and nobody waits for them to be served (stop racing new
+    // connections): each of them is either never started or - under a graceful stop - allowed to finish
+    let race = sc["race_conns"].as_u64().unwrap_or(0) as usize;
+    for c in nconn..nconn + race {
+        if let Ok(mut s) = StdTcpStream::connect_timeout(&addr, Duration::from_millis(500)) {
+            let _ = s.write_all(&[c as u8]);
+            clients.push(s);
+        }
+    }
+    if race > 0 {
+        log.emit(json!({"e": "RaceConnected", "n": race}));
+    }
     // the stop(s)
     let mut stop_threads = vec![];
     let late_at_stop = sc["late_connect"].as_bool().unwrap_or(false);
@@ -287,6 +299,18 @@ pub fn run_scenario(sc: &Value) -> Vec<Value> {
         };
         thread::sleep(Duration::from_millis(200));
         log.emit(json!({"e": "LateConnect", "connected": connected, "c": nconn + 1}));
+    }
+    if sc["stop_after_done"].as_bool().unwrap_or(false) && done {
+        // a stop issued after the server has completed: its future must resolve all the same
+        let fut = handle.stop(graceful);
+        log.emit(json!({"e": "StopCalled", "id": 3, "graceful": graceful, "afterDone": true}));
+        let l = log.clone();
+        stop_threads.push(thread::spawn(move || {
+            let rt = tokio::runtime::Builder::new_current_thread().enable_all().build().unwrap();
+            rt.block_on(fut);
+            l.emit(json!({"e": "StopResolved", "id": 3}));
+        }));
+        wait_until(Duration::from_secs(2), || log.has(|v| v["e"] == "StopResolved" && v["id"] == json!(3)));
     }
     // let everything go
     for f in release.iter() {
